@@ -320,6 +320,7 @@ func runC19(c *Ctx) {
 	c19Maps(c, cf, pairs)
 	c19Consts(c, cf)
 	c19Keys(c, cf)
+	c19WordsConverter(c)
 }
 
 func c19Maps(c *Ctx, cf *CFacts, pairs map[string]*types.TypeName) {
